@@ -100,7 +100,8 @@ def main():
     for r in results:
         if r["status"] == "error":
             undecided.append(f"{r['backend']}:{r['unit']}: " + "; ".join(r["notes"])[:1500])
-            continue
+            if not r["failures"]:
+                continue
         be = per_backend.setdefault(r["backend"], dict(obligations=0, discharged=0, units=0, solver_ms=0))
         be["units"] += 1
         relevant_fail = []
@@ -111,13 +112,13 @@ def main():
             relevant_fail.append(f)
         n_obl = r.get("obligations", r["verified"] + r["errors"])
         n_dis = r.get("discharged", r["verified"])
-        if r.get("bounded"):
-            bounded.append(dict(unit=r["unit"], bound=r["bounded"], checks=n_obl, failed=len(relevant_fail)))
-        else:
-            obligations += n_obl
-            discharged += n_dis
-            be["obligations"] += n_obl
-            be["discharged"] += n_dis
+        for bl in r.get("bounded_list", []):
+            bounded.append(f"[{r['unit']}] {bl}")
+        obligations += n_obl
+        discharged += n_dis
+        be["obligations"] += n_obl
+        be["discharged"] += n_dis
+        be["bounded_checks_not_counted"] = be.get("bounded_checks_not_counted", 0) + r.get("bounded_checks", 0)
         be["solver_ms"] += r.get("smt_ms", 0)
         solver_ms += r.get("smt_ms", 0)
         for fn in r["functions"]:
